@@ -173,8 +173,9 @@ def lean_closure(modules):
     return seen
 
 
-def lean_check(prop_id):
-    """Build the property's theorems and audit their axioms.
+def lean_check(prop_id, tier="quick"):
+    """Build the property's theorems and audit their axioms (thorough tier: also replay the compiled modules through `leanchecker`,
+    the toolchain's independent re-checker of .olean files).
     Returns dict(obligations, discharged, theorems=[(name, axioms)], broken=[...], checker_cmd)."""
     t0 = time.time()
     from gen_audit import prop_modules, theorem_names
@@ -215,6 +216,15 @@ def lean_check(prop_id):
     for d in declared:
         if d not in audited:
             res["broken"].append(f"theorem {d} is not audited")
+    if tier == "thorough":
+        # independent replay of every declaration of the property's modules by the external kernel checker
+        res["leanchecker"] = {}
+        for m in mods:
+            rc, out = run_cmd(["lake", "env", "leanchecker", f"Tuc.Props.{m}"], cwd=LEAN)
+            res["leanchecker"][m] = "ok" if rc == 0 else out[-600:]
+            if rc != 0:
+                res["broken"].append(f"leanchecker rejects Tuc.Props.{m}: {out[-300:]}")
+        res["checker_cmd"] += "; thorough: lake env leanchecker " + " ".join("Tuc.Props." + m for m in mods)
     res["lean_wall_s"] = round(time.time() - t0, 1)
     return res
 
